@@ -150,3 +150,40 @@ Theorem C12_not_sound : forall b, exists c, unaryNot (CB b) = Ok c /\
   seen c = (KBool, 1, 1 - (if b then 1 else 0)).
 Proof. exact not_sound. Qed.
 Print Assumptions C12_not_sound.
+
+(* ---- several folded constants in one program: the constant table ----
+   Constants are interned by NAME = "$" + the value as mpa.Int.String() prints it
+   (model: cname = the stored value).  For all constants produced by
+   Generator.Constant (all widths, all values; fits = mpint.go's invariants "a
+   small Int holds a 64-bit value, a big one is non-negative"): the same name
+   implies the same mpa.Int (value AND container). *)
+Theorem C12_same_name_same_mint : forall v1 v2 t1 t2, fits v1 -> fits v2 -> mval v1 = mval v2 ->
+  exists m t1' t2', constant v1 t1 = CI t1' m /\ constant v2 t2 = CI t2' m /\
+    cname (constant v1 t1) = cname (constant v2 t2).
+Proof. exact same_name_same_mint. Qed.
+Print Assumptions C12_same_name_same_mint.
+
+(* For every table, every two types and every mpa.Int: a constant consumed through
+   the entry registered first under its name receives exactly the wires it denotes
+   at its own width (truncation / zero extension of the shared wires), EXCEPT when
+   its type is a wider intN and the entry's top wire is 1. *)
+Theorem C12_shared_wires_partial : forall tbl t1 t2 m,
+  tlookup (mval m) tbl = Some (CI t1 m) -> 0 <= tbits t2 -> BitLen m <= tbits t1 ->
+  ~ (tk t2 = KInt /\ tbits t1 < tbits t2 /\ Z.testbit (const_wires (CI t1 m)) (tbits t1 - 1) = true) ->
+  lookup_wires tbl (CI t2 m) = const_wires (CI t2 m).
+Proof. exact shared_wires_partial. Qed.
+Print Assumptions C12_shared_wires_partial.
+
+(* The exception is real in today's compiler (finding F6k): two folds of the exact
+   class, same name, the later int64 one is seen sign-extended. *)
+Theorem C12_shared_constant_refuted :
+  exists c1 c2,
+    fold_exact_class OAdd KUint 32 (2 ^ 30) (2 ^ 30) = true /\
+    fold_exact_class OAdd KInt 64 (2 ^ 30) (2 ^ 30) = true /\
+    (do l <- typed KUint 32 (2 ^ 30); evalConst OAdd l l) = Ok c1 /\
+    (do l <- typed KInt 64 (2 ^ 30); evalConst OAdd l l) = Ok c2 /\
+    cname c1 = cname c2 /\
+    const_wires c2 = 2 ^ 31 /\
+    lookup_wires (intern (intern [] c1) c2) c2 = 2 ^ 64 - 2 ^ 31.
+Proof. exact shared_constant_refuted. Qed.
+Print Assumptions C12_shared_constant_refuted.
